@@ -165,6 +165,9 @@ class Unit:
                 if re.search(r':\s*&str\b', txt):
                     txt = re.sub(r':\s*&str\b', ": &'static str", txt, count=1)
                     notes.add('W', "elided lifetime of a const &str written out ('static)")
+                if not re.match(r'\s*pub\b', txt):
+                    txt = 'pub ' + txt.lstrip()
+                    notes.add('W', 'private const made pub (so that pub spec functions may mention it)')
                 self.items.append(Item(s.args[1], 'const', txt, origin=sp.describe(), notes=notes))
             elif k == 'type':
                 sp = self.src(s.args[0]).find_type(s.args[1])
